@@ -452,6 +452,46 @@ def rule_metadata_original(ctx, rep, rule_id="R-METADATA-ORIGINAL"):
         raise AnalysisError(f"only {n} metadata lookups found")
 
 
+def rule_no_content_prune(ctx, rep, rule_id="R-NO-CONTENT-PRUNE"):
+    rep.rule(
+        rule_id,
+        "a transformer's `visit_Module` may cut the traversal of a whole file only by *which file* it is (a condition on the file path, as the "
+        "Django settings codemods do - their rules carry the same path restriction), never by a pre-check of the module's content: the "
+        "detector has no such pre-check (`pattern-inside: import requests ...` also holds for an import inside a function), so a file it "
+        "flagged would be skipped silently - not rewritten, not listed as failed",
+        min_instances=2,
+    )
+    from .c02 import families
+
+    n = 0
+    seen = set()
+    for tq, tm in families(ctx).items():
+        for _owner, m in tm.all_methods():
+            if m.name != "visit_Module" or m.qname in seen:
+                continue
+            seen.add(m.qname)
+            ps = m.positional_params()
+            node_p = ps[1] if len(ps) > 1 else None
+            rets = [r_.value for r_ in walk_no_nested(m.node) if isinstance(r_, ast.Return) and r_.value is not None
+                    and not (isinstance(r_.value, ast.Constant) and r_.value.value in (True, None))]
+            if not rets:
+                continue
+            n += 1
+            r = ctx.resolver(m)
+            bad = None
+            for v in rets:
+                ev = r.expand(v)
+                names = names_in(ev) | names_in(v)
+                # comprehension / generator variables that range over the node's content
+                if node_p and node_p in names:
+                    bad = v
+            rep.check(rule_id, m.qname, m.loc(bad) if bad is not None else m.loc(), bad is None, "visit_Module",
+                      f"`return {unparse(bad)[:60] if bad is not None else ''}` decides from the content of `{node_p}` whether the file is traversed at all: files the detector "
+                      "reported but that fail this pre-check are silently left as they are")
+    if n < 2:
+        raise AnalysisError(f"only {n} pruning visit_Module methods found (the Django settings codemods were confirmed by hand)")
+
+
 def check(ctx, rep):
     rep.explanation = (
         "Detector and transformer describe the same construct twice (semgrep YAML and libcst code). The rule reader and the effect "
@@ -474,6 +514,11 @@ def check(ctx, rep):
     rule_no_dup_keyword(ctx, rep)
     rule_scan_targets(ctx, rep)
     rule_metadata_original(ctx, rep)
+    rule_no_content_prune(ctx, rep)
+    from .c09 import rule_detector_fresh
+
+    # 'detecting again after the run reports nothing': each codemod must look at the files as they are now, not at an earlier scan
+    rule_detector_fresh(ctx, rep)
     from .c06 import rule_rule_keyed
 
     rule_rule_keyed(ctx, rep)
